@@ -149,6 +149,14 @@ def advance {α : Type} : Nat → Windower α → Windower α
     | none => w
     | some (_, w') => advance n w'
 
+/-- the windower states after each of the first `n` successful `next()` calls (stops when it ends): what is LEFT —
+    `windower.frames` is public — after every chunk -/
+def trail {α : Type} : Nat → Windower α → List (Windower α)
+  | 0, _ => []
+  | n + 1, w => match next w with
+    | none => []
+    | some (_, w') => w' :: trail n w'
+
 /-- iterating with the public fields `bin` / `hop` reassigned after `k` chunks (`windower.bin = b2; windower.hop = h2`
     between two `next()` calls: the fields are `pub`, window/mod.rs:108-113): the first `k` observations, then — if the
     windower has not ended — the observations of the windower over the same remaining frames with the new fields -/
@@ -157,6 +165,11 @@ def iterateRebin {α : Type} (cap k b2 h2 : Nat) (w : Windower α) : List ((Nat 
   if first.length = k ∧ (first.getLast?.map (fun o => o.2.isSome)).getD true ∧ k ≤ cap then
     first ++ iterate (cap - k) { advance k w with bin := b2, hop := h2 }
   else first
+
+/-- `trail` for `iterateRebin` -/
+def trailRebin {α : Type} (cap k b2 h2 : Nat) (w : Windower α) : List (Windower α) :=
+  let first := trail (min k cap) w
+  if first.length = k ∧ k ≤ cap then first ++ trail (cap - k) { advance k w with bin := b2, hop := h2 } else first
 
 /-! ## Instances -/
 
